@@ -2508,7 +2508,8 @@ impl<'a> PaymentPath<'a> {
 			// We try to account for htlc_minimum_msat in scoring (add_entry!), so that nodes don't
 			// set it too high just to maliciously take more fees by exploiting this
 			// match htlc_minimum_msat logic.
-			let mut cur_hop_transferred_amount_msat = total_fee_paid_msat + value_msat;
+			let mut cur_hop_transferred_amount_msat =
+				total_fee_paid_msat + value_msat + extra_contribution_msat;
 			if let Some(extra_fees_msat) = cur_hop.candidate.htlc_minimum_msat().checked_sub(cur_hop_transferred_amount_msat) {
 				// Note that there is a risk that *previous hops* (those closer to us, as we go
 				// payee->our_node here) would exceed their htlc_maximum_msat or available balance.
